@@ -289,6 +289,8 @@ def strategy():
                                       'text/plain; charset=utf-8', 'application/json; charset=utf-8', 'text/html']),
         'stack': st.sampled_from([None, None, None, 'gzip', 'cache', 'gzip+cache']),
         'reuse': st.sampled_from([None, None, 'text/html', 'application/json', 'application/xml']),
+        # an error that does not end the routing (is_breaking=False): with no later route it is the final answer all the same
+        'nb': st.sampled_from([False, False, True]),
     })
     nf = st.fixed_dictionaries({
         'kind': st.just('notfound'), 'path': st.lists(text.map(lambda s: s.replace('/', '|').replace('\n', ' ').replace('\r', ' ').replace('\x00', '')),
@@ -322,6 +324,8 @@ def make_app(case, cell):
                 kw[k] = c[k]
         if c['cls'] == 'HTTPException' and 'code' not in kw:
             kw['code'] = 500
+        if c.get('nb'):
+            kw['is_breaking'] = False
         if c.get('preset'):
             kw['mimetype'] = c['preset']          # documented constructor argument
         elif c.get('preset_ct'):
@@ -453,14 +457,14 @@ def body(case, ctx):
 
 
 def run_matrix(ctx):
-    """every exported class x raise/return x 4 exact Accept values, default fields: status table + format"""
+    """every exported class x raise/return x breaking / non-breaking x 5 exact Accept values, default fields: status table + format"""
     from clastic import errors
     for debug in (False, True, 'fallback'):
         for cn in errors.__all__:
-            for how in ('raise', 'return'):
+            for how in ('raise', 'return', 'raise-nb', 'return-nb'):
                 for accept in ('text/html', 'application/json', 'application/xml', 'text/plain', 'image/png'):
-                    case = {'kind': 'http', 'cls': cn, 'how': how, 'detail': '<zq9m1> & "x"', 'message': None, 'error_type': None,
-                            'code': None, 'accept': accept, 'debug': debug, 'method': 'GET', 'preset': None, 'reuse': None}
+                    case = {'kind': 'http', 'cls': cn, 'how': how.split('-')[0], 'detail': '<zq9m1> & "x"', 'message': None, 'error_type': None,
+                            'code': None, 'accept': accept, 'debug': debug, 'method': 'GET', 'preset': None, 'reuse': None, 'nb': how.endswith('-nb')}
                     ctx.case(case)
                     try:
                         body(case, ctx)
